@@ -1,0 +1,37 @@
+'''
+Created on Oct 1, 2026
+
+'''
+from vsc.model.model_visitor import ModelVisitor
+
+
+class RefFieldsNonCallVisitor(ModelVisitor):
+    """Finds fields that constraints refer to, but that are not part of the 
+    set of fields being randomized by a call. Such fields act as constants."""
+    
+    def __init__(self):
+        super().__init__()
+        self.ref_l = []
+        
+    @staticmethod
+    def lock(field_model_l, constraint_l):
+        v = RefFieldsNonCallVisitor()
+        for fm in field_model_l:
+            fm.accept(v)
+        for c in constraint_l:
+            c.accept(v)
+
+        for f in v.ref_l:
+            p = f
+            in_call = False
+            while p is not None and not in_call:
+                for r in field_model_l:
+                    if p is r:
+                        in_call = True
+                        break
+                p = getattr(p, "parent", None)
+            if not in_call:
+                f.set_used_rand(False)
+        
+    def visit_expr_fieldref(self, e):
+        self.ref_l.append(e.fm)
